@@ -93,6 +93,9 @@ def to_it(M, x, by_ref=False, tystr=''):
 def callf(M, f, args):
     """call a closure / fn item / fn pointer with the given argument list"""
     while isinstance(f, Ref): f = V(f)              # &F, &&F, &mut F are callable like F
+    while isinstance(f, Native) and f.kind == 'Box':            # Box<dyn Fn..>: call what is inside
+        f = f.d['slot'][0]
+        while isinstance(f, Ref): f = V(f)
     if isinstance(f, Native) and f.kind == 'FnItem':
         name = f.d['name']
         if name.startswith('@native:'): return ms.NATIVE_FNS[name[8:]](M, args, name)
@@ -177,11 +180,19 @@ def _(M, a, c):
     if isinstance(s, Ref): s = mo.as_slice(deref_all(s))
     if fn == 'char_indices': return Native('CharIndices', s=s, pos=0)
     if fn == 'bytes': return from_list(list(s.items()))
-    st = {'pos': 0}
+    st = {'pos': 0, 'tail': None}
     def nxt():
+        if st['tail'] is not None: return st['tail'].pop(0) if st['tail'] else STOP
         if st['pos'] >= len(s): return STOP
         ch, w = decode_char(M, s, st['pos']); st['pos'] += w; return ch
-    return mk(nxt, None, None)
+    def bck():
+        # from the back: decode what is left forward once (valid UTF-8), then hand it out in reverse
+        if st['tail'] is None:
+            st['tail'] = []
+            while st['pos'] < len(s):
+                ch, w = decode_char(M, s, st['pos']); st['pos'] += w; st['tail'].append(ch)
+        return st['tail'].pop() if st['tail'] else STOP
+    return mk(nxt, bck, None)
 @model_re(r'^Option::(iter|iter_mut)$')
 def _(M, a, c): return to_it(M, a[0], by_ref=True)
 
@@ -346,7 +357,10 @@ def adapt(M, fn, it, a, c):
             return it.nxt()
         return mk(nxt, None, None)
     if fn == 'peekable':
-        return Native('It', it=it)
+        st = {'buf': []}
+        def nxt(): return st['buf'].pop(0) if st['buf'] else it.nxt()
+        r = mk(nxt, None, None); r.d['peek'] = st; r.d['src'] = it
+        return r
     if fn in ('flat_map', 'flatten'):
         f = a[1] if fn == 'flat_map' else None; st = {'cur': None}
         def nxt():
@@ -446,7 +460,20 @@ def consume(M, fn, it, a, c):
             if x is STOP: return some(acc)
             acc = callf(M, f, [acc, x])
     if fn == 'try_fold':
-        raise Unsupported("try_fold")
+        # the closure returns Option / Result (Try): stop at the first None / Err
+        acc = a[1]; f = a[2]
+        res = re.search(r'try_fold::<[^,]*, .*?, (Option|std::result::Result|Result)<', c)
+        while True:
+            x = it.nxt()
+            if x is STOP:
+                return some(acc) if (res and res.group(1) == 'Option') else ok(acc)
+            r = callf(M, f, [acc, x])
+            if r.ty == 'Option':
+                if r.variant == 0: return r
+                acc = r.fields[0]
+            else:
+                if r.variant == 1: return r
+                acc = r.fields[0]
     if fn in ('all', 'any'):
         f = a[1]
         while True:
@@ -588,6 +615,8 @@ def default_of(M, ty, like=None):
     raise Unsupported("Default for " + ty)
 @model_re(r'^<.* as Default>::default$')
 def _(M, a, c):
+    key = M.lookup(c) or M.lookup(norm_name(c))
+    if key is not None: return M.call(key, a)        # a (derived) impl of the crate
     return default_of(M, re.match(r'^<(.*) as Default>::default$', norm_name(c)).group(1))
 
 # ------------------------------------------------------------------ Vec / slice
@@ -709,7 +738,11 @@ def _(M, a, c):
     return Native('Vec', b=[generic_clone(M, a[0]) for _ in range(a[1].v)])
 
 # ------------------------------------------------------------------ str / String
+ENUMS.setdefault('Cow', ['Borrowed', 'Owned'])
 def _bytes(x):
+    v = x
+    while isinstance(v, Ref): v = V(v)
+    if isinstance(v, Agg) and v.ty.startswith('Cow') and v.fields: x = v.fields[0]        # Cow::Borrowed(&str) / Cow::Owned(String) built by the crate
     s = mo.as_slice(x)
     if isinstance(s, Ref): s = mo.as_slice(deref_all(s))
     return s
@@ -781,6 +814,19 @@ def _(M, a, c):
         if fn in ('trim', 'trim_end'):
             while hi > lo and ws(items[hi - 1]): hi -= 1
         return Slice(s.b, s.lo + lo, s.lo + hi, True)
+    if fn in ('pop', 'insert', 'insert_str', 'remove') and isinstance(V(a[0]) if isinstance(a[0], Ref) else a[0], Native):
+        st = V(a[0]) if isinstance(a[0], Ref) else a[0]; b = st.d['b']
+        if fn == 'pop':
+            if not b: return NONE()
+            k = len(b) - 1
+            while k > 0 and M.branch(band(M.binop('Ge', b[k], U(8, 0x80)), M.binop('Lt', b[k], U(8, 0xC0)))): k -= 1
+            ch, w = decode_char(M, Slice(b, 0, len(b), True), k); del b[k:]; return some(ch)
+        if a[1].sym(): raise Unsupported("String::%s at a symbolic position" % fn)
+        k = a[1].v
+        if k > len(b) or (0 < k < len(b) and not b[k].sym() and 0x80 <= b[k].v < 0xC0): raise Panic("String::%s: position %d is not a char boundary" % (fn, k))
+        if fn == 'insert': b[k:k] = encode_char(M, a[2]); return UNIT
+        if fn == 'insert_str': b[k:k] = list(_bytes(a[2]).items()); return UNIT
+        ch, w = decode_char(M, Slice(b, 0, len(b), True), k); del b[k:k + w]; return ch
     if fn in ('to_lowercase', 'to_uppercase', 'eq_ignore_ascii_case', 'repeat', 'get', 'split_at', 'pop', 'insert', 'insert_str', 'remove', 'as_ptr'):
         raise Unsupported("str::" + fn)
     raise Unsupported("str method " + fn)
@@ -954,8 +1000,81 @@ def _(M, a, c):
     if fn == 'abs_diff':
         y = deref_all(a[1])
         return Int(x.w, False, (x.v - y.v) if M.branch(M.binop('Ge', x, y)) else (y.v - x.v))
+    if fn == 'pow':
+        e = deref_all(a[1])
+        if e.sym(): raise Unsupported("pow with a symbolic exponent")
+        r = Int(x.w, x.s, 1)
+        for _ in range(e.v):
+            ov = ms.mul_overflows(M, r, x) if hasattr(ms, 'mul_overflows') else None
+            r2 = M.binop('Mul', r, x)
+            if not x.sym() and not r.sym():
+                lo_ = -(1 << (x.w - 1)) if x.s else 0; hi_ = (1 << (x.w - 1)) - 1 if x.s else (1 << x.w) - 1
+                if not (lo_ <= r.v * x.v <= hi_): raise Panic("attempt to multiply with overflow")
+            elif M.branch(bnot(z3.And(z3.BVMulNoOverflow(r.z(), x.z(), x.s), z3.BVMulNoUnderflow(r.z(), x.z())) if x.s else z3.BVMulNoOverflow(r.z(), x.z(), False))): raise Panic("attempt to multiply with overflow")
+            r = r2
+        return r
     raise Unsupported("int method " + fn)
 
+# ------------------------------------------------------------------ {:?} of std composites and of derived impls, by value
+def dbg_value(M, v, ty=''):
+    """Debug rendering (not pretty) of a run-time value: integers, bools, chars (by type hint), strings, Vec / slices / arrays, tuples,
+    Option / Result / Ordering, and crate types through their own (derived) impl"""
+    v = deref_all(v); base = ty.lstrip('&').strip()
+    if isinstance(v, bool): return elems('true' if v else 'false')
+    if isinstance(v, Int):
+        if base == 'char': return dbg_char(M, v)
+        if v.sym(): return [Dec(v.v)] if v.s and v.w == 64 else mo.render_usize_sym(M, v)
+        return elems(str(v.v))
+    if z3.is_expr(v) and z3.is_bool(v): return elems('true' if M.branch(v) else 'false')
+    if isinstance(v, Slice) and v.is_str: return dbg_str(M, v.items())
+    if isinstance(v, Native) and v.kind == 'String': return dbg_str(M, v.d['b'])
+    if isinstance(v, (Slice, Native)) and (isinstance(v, Slice) or v.kind == 'Vec'):
+        b, lo, hi = _list_of(v); inner = re.sub(r'^(Vec<|\[)', '', base).rstrip('>]')
+        out = elems('[')
+        for i, e in enumerate(b[lo:hi]): out += (elems(', ') if i else []) + dbg_value(M, e, inner)
+        return out + elems(']')
+    if isinstance(v, Native) and v.kind in ('Box', 'Arc'): return dbg_value(M, v.d['slot'][0] if 'slot' in v.d else v.d['inner'])
+    if isinstance(v, Agg):
+        if v.ty == 'tuple':
+            if not v.fields: return elems('()')
+            out = elems('(')
+            for i, e in enumerate(v.fields): out += (elems(', ') if i else []) + dbg_value(M, e)
+            return out + (elems(',)') if len(v.fields) == 1 else elems(')'))
+        if v.ty == 'array':
+            out = elems('[')
+            for i, e in enumerate(v.fields): out += (elems(', ') if i else []) + dbg_value(M, e)
+            return out + elems(']')
+        if v.ty in ('Option', 'Result', 'Ordering', 'Cow'):
+            name = ENUMS[v.ty][v.variant]
+            if v.ty == 'Cow': return dbg_value(M, v.fields[0])
+            return elems(name) + ((elems('(') + dbg_value(M, v.fields[0]) + elems(')')) if v.fields else [])
+        body = mo.find_method(M, 'fmt', r'&(?:\w+::)*' + re.escape(v.ty.split('::')[-1]) + r'(?:<[^,)]*>)?', 'Debug')
+        if body is not None: return mo.run_fmt_body(M, body, v)
+    raise Unsupported("Debug of %r" % (type(v).__name__ if not isinstance(v, Agg) else v.ty))
+@model_re(r'^Formatter::(debug_struct_field\d_finish|debug_tuple_field\d_finish|debug_struct_fields_finish|debug_tuple_fields_finish)$')
+def _(M, a, c):
+    fn = norm_name(c).split('::')[-1]; f = V(a[0]); out = list(toelems(a[1]))
+    rest = a[2:]
+    if fn.startswith('debug_struct_field'):
+        out += elems(' { ')
+        for i in range(0, len(rest), 2): out += (elems(', ') if i else []) + list(toelems(rest[i])) + elems(': ') + dbg_value(M, rest[i + 1])
+        out += elems(' }')
+    elif fn.startswith('debug_tuple_field'):
+        out += elems('(')
+        for i, x in enumerate(rest): out += (elems(', ') if i else []) + dbg_value(M, x)
+        out += elems(')')
+    else:
+        names = list(_list_of(rest[0])[0]) if fn == 'debug_struct_fields_finish' else None
+        vals = _list_of(rest[-1]); vals = vals[0][vals[1]:vals[2]]
+        if names is not None:
+            out += elems(' { ')
+            for i, x in enumerate(vals): out += (elems(', ') if i else []) + list(toelems(names[i])) + elems(': ') + dbg_value(M, x)
+            out += elems(' }')
+        else:
+            out += elems('(')
+            for i, x in enumerate(vals): out += (elems(', ') if i else []) + dbg_value(M, x)
+            out += elems(')')
+    f.d['buf'].append(out); return ok(UNIT)
 # ------------------------------------------------------------------ derived Debug ({:?}) of the front end's types, by structure
 def dbg_str(M, els, quote='"'):
     out = elems(quote)
@@ -1226,6 +1345,242 @@ def _(M, a, c):
     if x.variant == 1: return some(err(x.fields[0]))
     o = x.fields[0]
     return some(ok(o.fields[0])) if o.variant == 1 else NONE()
+@model_re(r'^Peekable::(peek|peek_mut|next_if|next_if_eq)$')
+def _(M, a, c):
+    fn = norm_name(c).split('::')[-1]; p = V(a[0]); st = p.d.get('peek')
+    if st is None: raise Unsupported("peek on an iterator that was not made by peekable()")
+    if not st['buf']:
+        x = p.d['src'].nxt()
+        if x is STOP: return NONE()
+        st['buf'].append(x)
+    if fn in ('peek', 'peek_mut'): return some(Ref(st['buf'], 0))
+    x = st['buf'][0]
+    hit = M.branch(callf(M, a[1], [Ref([x], 0)])) if fn == 'next_if' else M.branch(generic_eq(M, x, a[1]))
+    if hit: st['buf'].pop(0); return some(x)
+    return NONE()
+@model_re(r'^<String as Add<&str>>::add$')
+def _(M, a, c):
+    a[0].d['b'].extend(_bytes(a[1]).items()); return a[0]
+@model_re(r'^(std::collections::)?VecDeque::(<.*>::)?(new|with_capacity|push_back|push_front|pop_back|pop_front|len|is_empty|front|back|iter|clear|get|contains|front_mut|back_mut)$')
+def _(M, a, c):
+    fn = norm_name(c).split('::')[-1]
+    if fn in ('new', 'with_capacity'): return Native('Vec', b=[])
+    v = V(a[0]); b = v.d['b']
+    if fn == 'push_back': b.append(a[1]); return UNIT
+    if fn == 'push_front': b.insert(0, a[1]); return UNIT
+    if fn == 'pop_back': return some(b.pop()) if b else NONE()
+    if fn == 'pop_front': return some(b.pop(0)) if b else NONE()
+    if fn == 'len': return usize(len(b))
+    if fn == 'is_empty': return len(b) == 0
+    if fn in ('front', 'front_mut'): return some(Ref(b, 0)) if b else NONE()
+    if fn in ('back', 'back_mut'): return some(Ref(b, len(b) - 1)) if b else NONE()
+    if fn == 'iter': return from_refs(b, 0, len(b))
+    if fn == 'clear': del b[:]; return UNIT
+    if fn == 'get':
+        k = concretize(M, a[1], len(b) - 1) if b else None
+        return NONE() if k is None else some(Ref(b, k))
+    if fn == 'contains':
+        r = False
+        for e in b: r = bor(r, generic_eq(M, e, a[1]))
+        return r
+    raise Unsupported("VecDeque::" + fn)
+@model_re(r'^core::slice::<impl \[.*\]>::(binary_search|rotate_left|rotate_right|fill|starts_with|ends_with|concat|iter_mut|copy_from_slice|swap)$|^Vec::(dedup|dedup_by_key)$')
+def _(M, a, c):
+    fn = norm_name(c).split('::')[-1]; b, lo, hi = _list_of(a[0]); items = b[lo:hi]; n = hi - lo
+    if fn == 'binary_search':
+        ks = [_sort_key(M, x) for x in items]; k = _sort_key(M, a[1])
+        import bisect
+        i = bisect.bisect_left(ks, k)
+        return ok(usize(i)) if i < n and ks[i] == k else err(usize(i))
+    if fn in ('rotate_left', 'rotate_right'):
+        if a[1].sym(): raise Unsupported("rotate by a symbolic amount")
+        k = a[1].v
+        if k > n: raise Panic("rotate: mid > len")
+        b[lo:hi] = (items[k:] + items[:k]) if fn == 'rotate_left' else (items[n - k:] + items[:n - k]); return UNIT
+    if fn == 'fill':
+        for i in range(lo, hi): b[i] = generic_clone(M, a[1])
+        return UNIT
+    if fn in ('starts_with', 'ends_with'):
+        qb, qlo, qhi = _list_of(a[1]); m = qhi - qlo
+        if m > n: return False
+        part = items[:m] if fn == 'starts_with' else items[n - m:]
+        r = True
+        for x, y in zip(part, qb[qlo:qhi]): r = band(r, generic_eq(M, x, y))
+        return r
+    if fn in ('dedup', 'dedup_by_key'):
+        out = []
+        for x in items:
+            if out:
+                kx = x if fn == 'dedup' else callf(M, a[1], [Ref([x], 0)]); kp = out[-1] if fn == 'dedup' else callf(M, a[1], [Ref([out[-1]], 0)])
+                if M.branch(generic_eq(M, kx, kp)): continue
+            out.append(x)
+        b[lo:hi] = out; return UNIT
+    if fn == 'iter_mut': return from_refs(b, lo, hi)
+    if fn == 'swap':
+        i = concretize(M, a[1], n - 1); j = concretize(M, a[2], n - 1)
+        if i is None or j is None: raise Panic("index out of bounds in swap")
+        b[lo + i], b[lo + j] = b[lo + j], b[lo + i]; return UNIT
+    if fn == 'copy_from_slice':
+        qb, qlo, qhi = _list_of(a[1])
+        if qhi - qlo != n: raise Panic("source slice length does not match destination slice length")
+        b[lo:hi] = list(qb[qlo:qhi]); return UNIT
+    raise Unsupported("slice::" + fn)
+@model_re(r'^(std::str::|core::str::)?Utf8Error::(valid_up_to|error_len)$|^FromUtf8Error::(utf8_error|into_bytes)$')
+def _(M, a, c):
+    fn = norm_name(c).split('::')[-1]; e = V(a[0]) if isinstance(a[0], Ref) else a[0]
+    if fn == 'utf8_error': return e
+    if e.d.get('sym'): raise Unsupported("Utf8Error details over symbolic bytes")
+    if fn == 'valid_up_to': return usize(e.d['valid_up_to'])
+    if fn == 'error_len': return NONE() if e.d['error_len'] is None else some(usize(e.d['error_len']))
+    raise Unsupported(fn)
+@model_re(r'^(std::char::|core::char::)?from_digit$|^char::methods::<impl char>::(from_digit|from_u32|to_ascii_uppercase|to_ascii_lowercase|is_ascii|len_utf8|eq_ignore_ascii_case|is_ascii_punctuation|is_ascii_hexdigit)$|^(std::char::|core::char::)?from_u32$')
+def _(M, a, c):
+    fn = norm_name(c).split('::')[-1]; x = a[0].load() if isinstance(a[0], Ref) else a[0]
+    if fn == 'from_digit':
+        if x.sym() or a[1].sym(): raise Unsupported("from_digit on symbolic values")
+        if a[1].v > 36: raise Panic("from_digit: radix is too high (maximum 36)")
+        if x.v >= a[1].v: return NONE()
+        return some(Int(32, False, ord('0123456789abcdefghijklmnopqrstuvwxyz'[x.v])))
+    if fn == 'from_u32':
+        return M.do_call('<char as TryFrom<u32>>::try_from', [x], None).variant == 0 and some(ms.int_cast(x, 32, False)) or NONE()
+    if x.sym() and fn != 'len_utf8' and fn != 'is_ascii':
+        z = x.z(); up = z3.And(z3.UGE(z, 0x41), z3.ULE(z, 0x5a)); lowr = z3.And(z3.UGE(z, 0x61), z3.ULE(z, 0x7a))
+        if fn == 'to_ascii_uppercase': return Int(32, False, z3.If(lowr, z - 32, z))
+        if fn == 'to_ascii_lowercase': return Int(32, False, z3.If(up, z + 32, z))
+        raise Unsupported("char::" + fn + " on a symbolic character")
+    if fn == 'is_ascii': return M.binop('Lt', x, Int(x.w, False, 0x80))
+    if fn == 'len_utf8':
+        if M.branch(M.binop('Lt', x, Int(32, False, 0x80))): return usize(1)
+        if M.branch(M.binop('Lt', x, Int(32, False, 0x800))): return usize(2)
+        return usize(3) if M.branch(M.binop('Lt', x, Int(32, False, 0x10000))) else usize(4)
+    ch = chr(x.v)
+    if fn == 'to_ascii_uppercase': return Int(32, False, ord(ch.upper()) if ch.isascii() else x.v)
+    if fn == 'to_ascii_lowercase': return Int(32, False, ord(ch.lower()) if ch.isascii() else x.v)
+    if fn == 'is_ascii_punctuation': return ch.isascii() and ch in '!"#$%&\'()*+,-./:;<=>?@[\\]^_`{|}~'
+    if fn == 'is_ascii_hexdigit': return ch in '0123456789abcdefABCDEF'
+    if fn == 'eq_ignore_ascii_case':
+        y = a[1].load() if isinstance(a[1], Ref) else a[1]
+        return (ch.lower() if ch.isascii() else ch) == (chr(y.v).lower() if chr(y.v).isascii() else chr(y.v))
+    raise Unsupported("char::" + fn)
+@model_re(r'^<(HashMap|BTreeMap)<.*> as Index<.*>>::index$')
+def _(M, a, c):
+    m = V(a[0]); k = skey(a[1])
+    if k not in m.d['m']: raise Panic("key not found in map index")
+    return Ref(m.d['m'][k], 1)
+@model_re(r'^<(std::cell::)?Ref(Mut)?<.*> as Deref(Mut)?>::deref(_mut)?$')
+def _(M, a, c): return Ref(V(a[0]).d['cell'].d['slot'], 0)
+@model_re(r'^(std::ops::)?RangeInclusive::(<.*>::)?(new|start|end|contains|is_empty)$|^(std::ops::)?Range::(<.*>::)?(contains|is_empty)$')
+def _(M, a, c):
+    nm = norm_name(c); fn = nm.split('::')[-1]; incl = 'RangeInclusive' in nm
+    if fn == 'new': return Agg('RangeInclusive', 0, [a[0], a[1]])
+    r = V(a[0]) if isinstance(a[0], Ref) else a[0]; lo, hi = r.fields[0], r.fields[1]
+    if fn == 'start': return Ref(r.fields, 0)
+    if fn == 'end': return Ref(r.fields, 1)
+    if fn == 'is_empty': return M.binop('Gt' if incl else 'Ge', lo, hi)
+    x = deref_all(a[1])
+    return band(M.binop('Le', lo, x), M.binop('Le' if incl else 'Lt', x, hi))
+@model_re(r'^<&[iu](8|16|32|64|128|size) as Neg>::neg$|^<[iu](8|16|32|64|128|size) as Neg>::neg$')
+def _(M, a, c):
+    x = deref_all(a[0]); mn = Int(x.w, x.s, -(1 << (x.w - 1)))
+    if x.s and M.branch(M.binop('Eq', x, mn)): raise Panic("attempt to negate with overflow")
+    return Int(x.w, x.s, -x.v)
+@model_re(r'^<&[iu](8|16|32|64|128|size) as (Add|Sub|Mul|Div|Rem)<&?[iu](8|16|32|64|128|size)>>::(add|sub|mul|div|rem)$')
+def _(M, a, c):
+    op = norm_name(c).split('::')[-1]; x, y = deref_all(a[0]), deref_all(a[1])
+    r = M.do_call('core::num::<impl %s%d>::checked_%s' % ('i' if x.s else 'u', x.w, op), [x, y], None)
+    if r.variant == 0: raise Panic("attempt to %s with overflow (or a zero divisor)" % op)
+    return r.fields[0]
+@model_re(r'^core::str::<impl str>::(split_whitespace|split_ascii_whitespace|strip_prefix|strip_suffix|trim_matches|trim_start_matches|trim_end_matches)$')
+def _(M, a, c):
+    fn = norm_name(c).split('::')[-1]; s = _bytes(a[0]); items = s.items(); n = len(items)
+    if fn.startswith('split_'):
+        def ws(b): return M.branch(z3.Or(b.z() == 0x20, z3.And(z3.UGE(b.z(), 9), z3.ULE(b.z(), 13)))) if not isinstance(b, Dec) else False
+        parts = []; i = 0
+        while i < n:
+            while i < n and ws(items[i]): i += 1
+            j = i
+            while j < n and not ws(items[j]): j += 1
+            if j > i: parts.append(Slice(s.b, s.lo + i, s.lo + j, True))
+            i = j
+        return from_list(parts)
+    pat = a[1]
+    while isinstance(pat, Ref): pat = V(pat)
+    pb = encode_char(M, pat) if isinstance(pat, Int) else list(_bytes(pat).items()); m = len(pb)
+    def eq_at(i):
+        r = True
+        for x, y in zip(items[i:i + m], pb): r = band(r, M.binop('Eq', x, y))
+        return r
+    if fn == 'strip_prefix': return some(Slice(s.b, s.lo + m, s.hi, True)) if m <= n and M.branch(eq_at(0)) else NONE()
+    if fn == 'strip_suffix': return some(Slice(s.b, s.lo, s.hi - m, True)) if m <= n and M.branch(eq_at(n - m)) else NONE()
+    lo, hi = 0, n
+    if m == 0: return Slice(s.b, s.lo, s.hi, True)
+    if fn in ('trim_matches', 'trim_start_matches'):
+        while hi - lo >= m and M.branch(eq_at(lo)): lo += m
+    if fn in ('trim_matches', 'trim_end_matches'):
+        while hi - lo >= m and M.branch(eq_at(hi - m)): hi -= m
+    return Slice(s.b, s.lo + lo, s.lo + hi, True)
+@model_re(r'^<(Option|std::result::Result|Result|Cow|\().* as Clone>::clone$')
+def _(M, a, c): return generic_clone(M, deref_all(a[0]))
+@model_re(r'^<(\(.*\)|Option<.*>|&?\[.*\]|Vec<.*>) as (Ord|PartialOrd)(<.*>)?>::(cmp|partial_cmp|lt|le|gt|ge)$')
+def _(M, a, c):
+    fn = norm_name(c).split('::')[-1]
+    v = generic_cmp(M, deref_all(a[0]), deref_all(a[1]))
+    if fn in ('lt', 'le', 'gt', 'ge'): return {'lt': v == 0, 'le': v <= 1, 'gt': v == 2, 'ge': v >= 1}[fn]
+    o = Agg('Ordering', v, [])
+    return some(o) if fn == 'partial_cmp' else o
+def generic_cmp(M, p, q):
+    """derive / std `Ord` of composites: 0 Less, 1 Equal, 2 Greater (forks on symbolic integers)"""
+    p, q = deref_all(p), deref_all(q)
+    if isinstance(p, Int) and isinstance(q, Int): return 0 if M.branch(M.binop('Lt', p, q)) else (1 if M.branch(M.binop('Eq', p, q)) else 2)
+    if isinstance(p, bool): return (p > q) - (p < q) + 1
+    if isinstance(p, (Slice, Native)) and (isinstance(p, Slice) or p.kind in ('String', 'Vec')):
+        pb, plo, phi = _list_of(p); qb, qlo, qhi = _list_of(q)
+        for x, y in zip(pb[plo:phi], qb[qlo:qhi]):
+            r = generic_cmp(M, x, y)
+            if r != 1: return r
+        return ((phi - plo) > (qhi - qlo)) - ((phi - plo) < (qhi - qlo)) + 1
+    if isinstance(p, Agg) and isinstance(q, Agg):
+        if p.ty not in ('tuple', 'Option', 'Result', 'array', 'Ordering'):
+            key = M.lookup('<%s as Ord>::cmp' % p.ty)
+            if key is not None: return M.call(key, [Ref([p], 0), Ref([q], 0)]).variant
+        if p.variant != q.variant: return 0 if p.variant < q.variant else 2
+        for x, y in zip(p.fields, q.fields):
+            r = generic_cmp(M, x, y)
+            if r != 1: return r
+        return 1
+    raise Unsupported("cmp on %r" % (type(p).__name__,))
+@model_re(r'^Ordering::(then|then_with|reverse|is_eq|is_ne|is_lt|is_gt|is_le|is_ge)$|^std::cmp::Ordering::(then|then_with|reverse|is_eq|is_ne|is_lt|is_gt|is_le|is_ge)$')
+def _(M, a, c):
+    fn = norm_name(c).split('::')[-1]; o = a[0]; v = o.variant
+    if fn == 'then': return o if v != 1 else a[1]
+    if fn == 'then_with': return o if v != 1 else callf(M, a[1], [])
+    if fn == 'reverse': return Agg('Ordering', 2 - v, [])
+    return {'is_eq': v == 1, 'is_ne': v != 1, 'is_lt': v == 0, 'is_gt': v == 2, 'is_le': v <= 1, 'is_ge': v >= 1}[fn]
+@model_re(r'^<[iu](8|16|32|64|128|size) as Ord>::(clamp|min|max)$|^(std|core)::cmp::(min|max)$')
+def _(M, a, c):
+    fn = norm_name(c).split('::')[-1]; x = deref_all(a[0])
+    if not isinstance(x, Int): raise Unsupported("cmp::%s on non-integers" % fn)
+    if fn == 'clamp':
+        lo, hi = deref_all(a[1]), deref_all(a[2])
+        if M.branch(M.binop('Gt', lo, hi)): raise Panic("clamp: min > max")
+        if M.branch(M.binop('Lt', x, lo)): return lo
+        return hi if M.branch(M.binop('Gt', x, hi)) else x
+    y = deref_all(a[1]); xlt = M.branch(M.binop('Lt', x, y))
+    if fn == 'min': return x if (xlt or M.branch(M.binop('Eq', x, y))) else y
+    return y if (xlt or M.branch(M.binop('Eq', x, y))) else x
+@model_re(r'^<([\w:]+) as PartialOrd>::(lt|le|gt|ge)$|^<([\w:]+) as Ord>::(max|min)$')
+def _(M, a, c):
+    # provided methods over the crate's own `partial_cmp` / `cmp`
+    nm = norm_name(c); fn = nm.split('::')[-1]; ty = re.match(r'^<([\w:]+) as', nm).group(1)
+    if fn in ('lt', 'le', 'gt', 'ge'):
+        o = M.do_call('<%s as PartialOrd>::partial_cmp' % ty, a, None)
+        if o.variant == 0: return False
+        v = o.fields[0].variant
+        return {'lt': v == 0, 'le': v <= 1, 'gt': v == 2, 'ge': v >= 1}[fn]
+    x, y = a
+    v = M.do_call('<%s as Ord>::cmp' % ty, [Ref([x], 0), Ref([y], 0)], None).variant
+    if fn == 'max': return x if v == 2 else y
+    return x if v <= 1 else y
 # ---- map entry API
 @model_re(r'^(BTreeMap|HashMap)::entry$')
 def _(M, a, c):
